@@ -306,6 +306,9 @@ def judge(res: Dict[str, Any]) -> bool:
         return False
     if exp == "silent":
         return out == "silent"
+    if exp == "nofire":
+        # behaviour-preserving rewrite: the check may fail to recognise the new shape (undecided) but must never accuse
+        return out in ("silent", "undecided")
     if exp == "undecided":
         return out == "undecided"
     if exp == "fire-or-undecided":
@@ -427,4 +430,141 @@ def generic_silent(files: List[str]) -> List[Variant]:
         out.append(Variant(f"generic-reorder-methods-{short}", [(f, _reorder_methods)], "silent", note="methods reordered inside their classes"))
         out.append(Variant(f"generic-unrelated-code-{short}", [(f, _add_unrelated_code)], "silent", note="an unrelated function and method added"))
         out.append(Variant(f"generic-logging-{short}", [(f, _add_logging)], "silent", note="a logger.debug call added at the start of every function"))
+    return out
+
+
+# ----------------------------------------------------------------------------- generic equivalence rewrites (must never fire)
+
+
+class _SwapComparisons(ast.NodeTransformer):
+    """a == b -> b == a,  a != b -> b != a,  a < b -> b > a,  a <= b -> b >= a (and back); single-operator comparisons only."""
+
+    FLIP = {ast.Eq: ast.Eq, ast.NotEq: ast.NotEq, ast.Lt: ast.Gt, ast.Gt: ast.Lt, ast.LtE: ast.GtE, ast.GtE: ast.LtE}
+
+    def visit_Compare(self, node: ast.Compare):
+        self.generic_visit(node)
+        if len(node.ops) == 1 and type(node.ops[0]) in self.FLIP:
+            return ast.Compare(left=node.comparators[0], ops=[self.FLIP[type(node.ops[0])]()], comparators=[node.left])
+        return node
+
+
+class _RangeZero(ast.NodeTransformer):
+    def visit_Call(self, node: ast.Call):
+        self.generic_visit(node)
+        if isinstance(node.func, ast.Name) and node.func.id == "range" and len(node.args) == 1 and not node.keywords:
+            node.args = [ast.Constant(value=0), node.args[0]]
+        return node
+
+
+class _IfExpFlip(ast.NodeTransformer):
+    def visit_IfExp(self, node: ast.IfExp):
+        self.generic_visit(node)
+        return ast.IfExp(test=ast.UnaryOp(op=ast.Not(), operand=node.test), body=node.orelse, orelse=node.body)
+
+
+class _IfElseFlip(ast.NodeTransformer):
+    """if c: A else: B  ->  if not c: B else: A   (plain if/else only, no elif chains)"""
+
+    def visit_If(self, node: ast.If):
+        self.generic_visit(node)
+        if node.orelse and not (len(node.orelse) == 1 and isinstance(node.orelse[0], ast.If)):
+            return ast.If(test=ast.UnaryOp(op=ast.Not(), operand=node.test), body=node.orelse, orelse=node.body)
+        return node
+
+
+class _ChainSplit(ast.NodeTransformer):
+    """a < b < c  ->  a < b and b < c  when the middle operand is a name or a constant (evaluated twice without effect)"""
+
+    def visit_Compare(self, node: ast.Compare):
+        self.generic_visit(node)
+        if len(node.ops) == 2 and isinstance(node.comparators[0], (ast.Name, ast.Constant)):
+            import copy
+
+            mid = node.comparators[0]
+            return ast.BoolOp(op=ast.And(), values=[ast.Compare(left=node.left, ops=[node.ops[0]], comparators=[mid]),
+                                                    ast.Compare(left=copy.deepcopy(mid), ops=[node.ops[1]], comparators=[node.comparators[1]])])
+        return node
+
+
+class _AugConst(ast.NodeTransformer):
+    """x += 1 -> x = x + 1  for a plain name and an integer constant"""
+
+    def visit_AugAssign(self, node: ast.AugAssign):
+        if isinstance(node.target, ast.Name) and isinstance(node.value, ast.Constant) and isinstance(node.value.value, int) and not isinstance(node.value.value, bool):
+            return ast.Assign(targets=[ast.Name(id=node.target.id, ctx=ast.Store())], value=ast.BinOp(left=ast.Name(id=node.target.id, ctx=ast.Load()), op=node.op, right=node.value), lineno=node.lineno)
+        return node
+
+
+def _return_via_temp(tree: ast.Module) -> None:
+    """return E  ->  _result = E; return _result   in functions that are not generators"""
+    for fn in ast.walk(tree):
+        if not isinstance(fn, ast.FunctionDef):
+            continue
+        own = []
+        stack = list(fn.body)
+        is_gen = False
+        while stack:
+            n = stack.pop()
+            if isinstance(n, (ast.FunctionDef, ast.AsyncFunctionDef, ast.ClassDef, ast.Lambda)):
+                continue
+            if isinstance(n, (ast.Yield, ast.YieldFrom)):
+                is_gen = True
+            own.append(n)
+            stack.extend(ast.iter_child_nodes(n))
+        if is_gen:
+            continue
+        for holder in own:
+            for field in ("body", "orelse", "finalbody"):
+                lst = getattr(holder, field, None)
+                if not isinstance(lst, list):
+                    continue
+                new = []
+                for st in lst:
+                    if isinstance(st, ast.Return) and st.value is not None and not isinstance(st.value, (ast.Constant, ast.Name)):
+                        new.append(ast.Assign(targets=[ast.Name(id="_result", ctx=ast.Store())], value=st.value, lineno=st.lineno))
+                        new.append(ast.Return(value=ast.Name(id="_result", ctx=ast.Load())))
+                    else:
+                        new.append(st)
+                setattr(holder, field, new)
+        new = []
+        for st in fn.body:
+            if isinstance(st, ast.Return) and st.value is not None and not isinstance(st.value, (ast.Constant, ast.Name)):
+                new.append(ast.Assign(targets=[ast.Name(id="_result", ctx=ast.Store())], value=st.value, lineno=st.lineno))
+                new.append(ast.Return(value=ast.Name(id="_result", ctx=ast.Load())))
+            else:
+                new.append(st)
+        fn.body = new
+
+
+def _transformer(cls):
+    def apply(tree: ast.Module) -> None:
+        new = cls().visit(tree)
+        tree.body = new.body
+        ast.fix_missing_locations(tree)
+    return apply
+
+
+def _fix(fn):
+    def apply(tree: ast.Module) -> None:
+        fn(tree)
+        ast.fix_missing_locations(tree)
+    return apply
+
+
+def generic_equiv(files: List[str]) -> List[Variant]:
+    """Whole-file behaviour-preserving rewrites of small syntactic idioms.  Expectation 'nofire': undecided is tolerated,
+    an accusation is a false alarm."""
+    out = []
+    for f in files:
+        short = f.split("/")[-1][:-3]
+        for tag, fn, note in (
+            ("swap-comparisons", _transformer(_SwapComparisons), "operands of every comparison exchanged (a < b -> b > a)"),
+            ("range-zero", _transformer(_RangeZero), "range(n) -> range(0, n)"),
+            ("ifexp-flip", _transformer(_IfExpFlip), "a if c else b -> b if not c else a"),
+            ("ifelse-flip", _transformer(_IfElseFlip), "if c: A else: B -> if not c: B else: A"),
+            ("chain-split", _transformer(_ChainSplit), "a < b < c -> a < b and b < c"),
+            ("aug-const", _transformer(_AugConst), "x += 1 -> x = x + 1"),
+            ("return-via-temp", _fix(_return_via_temp), "return E -> _result = E; return _result"),
+        ):
+            out.append(Variant(f"equiv-{tag}-{short}", [(f, fn)], "nofire", note=note))
     return out
